@@ -13,5 +13,18 @@ for c in cfgs:
     s = out.setdefault(d["crate"], set())
     for f in d["fns"]:
         s.add(f["path"])
-json.dump({k: sorted(v) for k, v in out.items()}, open(os.path.join(V, "engines/rules/baseline_fns.json"), "w"), indent=0)
+# C inventory: function names per translation unit (union over the TBB define); an empty inventory disables C inlining while it is built
+bp = os.path.join(V, "engines/rules/baseline_fns.json")
+json.dump({k: sorted(v) for k, v in out.items()}, open(bp, "w"), indent=0)
+sys.path.insert(0, os.path.join(V, "engines", "rules"))
+sys.path.insert(0, os.path.join(V, "engines", "cfront"))
+import r_c
+ISA = {"c/blake3_sse2.c": ("-msse2",), "c/blake3_sse41.c": ("-msse4.1",), "c/blake3_avx2.c": ("-mavx2",), "c/blake3_avx512.c": ("-mavx512f", "-mavx512vl")}
+for path in ("c/blake3.c", "c/blake3_dispatch.c", "c/blake3_portable.c", "c/blake3_sse2.c", "c/blake3_sse41.c", "c/blake3_avx2.c", "c/blake3_avx512.c"):
+    names = set()
+    for defs in ((), ("BLAKE3_USE_TBB",)) if path == "c/blake3.c" else ((),):
+        t = r_c.tu(path, defs, extra_args=ISA.get(path, ()))
+        names |= set(n for n in t.funcs if not n.startswith("_"))
+    out["c:" + path] = names
+json.dump({k: sorted(v) for k, v in out.items()}, open(bp, "w"), indent=0)
 print({k: len(v) for k, v in out.items()})
